@@ -184,7 +184,11 @@ pub fn corpus(tier: &str) -> Vec<Corpus> {
     for uses in [vec!["use a;", "use b;"], vec!["use b;", "use a;"], vec!["use a;", "use b;", "use c;"], vec!["use a::X;", "use b::X;"], vec!["use c::X;", "use a::X;", "use b::X;"], vec!["use a;", "use b::X;", "use c;"]] {
         let mk = |n: usize| format!("pub type X {{\n    pub v: [u32; {n}],\n}}\n");
         let o = format!("{}\npub type O {{\n    pub x: X,\n    pub p: *const X,\n}}\nimpl O {{\n    #[address(0x1000)]\n    pub fn g(&self, x: *mut X) -> *const X;\n}}\n", uses.join("\n"));
-        out.push(Corpus { input: Input { modules: vec![("a".into(), mk(1)), ("b".into(), mk(2)), ("c".into(), mk(4)), ("o".into(), o)] }, features: vec!["ambiguous_imports".into()] });
+        out.push(Corpus { input: Input { modules: vec![("a".into(), mk(1)), ("b".into(), mk(2)), ("c".into(), mk(4)), ("o".into(), o.clone())] }, features: vec!["ambiguous_imports".into()] });
+        // the same with an extern value of that type, and with a local definition of the name as well
+        let ev = "#[address(0x2000)]\npub extern gx: *const X;\n#[address(0x2008)]\npub extern gy: X;\n";
+        out.push(Corpus { input: Input { modules: vec![("a".into(), mk(1)), ("b".into(), mk(2)), ("o".into(), format!("{o}{ev}"))] }, features: vec!["ambiguous_imports".into()] });
+        out.push(Corpus { input: Input { modules: vec![("a".into(), mk(1)), ("b".into(), mk(2)), ("o".into(), format!("{o}{ev}{}", mk(3)))] }, features: vec!["ambiguous_imports".into()] });
     }
     // dependency graphs (by-value chains, cycles, pointer cycles, undefined names)
     for g in graphs::graph_inputs(tier, true) {
